@@ -1,6 +1,6 @@
 (* C13 -- the window loop (with the regenerated index arithmetic) = the anchor enumeration;
    termination within the fuel; what the enumeration contains. *)
-Require Import SF.Prelude SF.PySlice Gen.Gen_c13 SF.Window.
+Require Import SF.Prelude SF.PySlice Gen.Gen_c13 SF.WindowSpec SF.Window.
 
 Lemma zseq_S a k : zseq a (S k) = a :: zseq (a + 1) k.
 Proof. reflexivity. Qed.
@@ -27,7 +27,7 @@ Qed.
 Lemma left_floor x : w_idx_left_floored x = Z.max 0 x.
 Proof. unfold w_idx_left_floored. destruct (x >? 0) eqn:E; lia. Qed.
 
-Lemma stop_floor a r : w_key_stop a (w_idx_right_floored r) = Z.max 0 (r + 1).
+Lemma stop_floor l r a : w_key_stop l r a (w_idx_right_floored r) = Z.max 0 (r + 1).
 Proof. unfold w_key_stop, w_idx_right_floored. destruct (r >? -1) eqn:E; lia. Qed.
 
 Section WindowFacts.
